@@ -358,3 +358,231 @@ MUTANTS.update({
             r = f"n{uuid.uuid4().hex}\"""")],
     },
 })
+
+A2G = "decaylanguage/modeling/ampgen2goofit.py"
+GOO = "decaylanguage/modeling/goofit.py"
+ACH = "decaylanguage/modeling/amplitudechain.py"
+MAIN = "decaylanguage/__main__.py"
+
+PY_PARS_LOOP = """        for name, par in cls.pars.iterrows():
+            pname = programmatic_name(name)
+            if not par.fix:
+                headerlist.append(
+                    f'{pname} = Variable("{name}", {par.value}, {par.error} )'
+                )"""
+
+MUTANTS.update({
+    # ------------------------------------------------------------------ C19
+    "c19_cpp_marker_printed_not_returned": {
+        "prop": "C19", "expect": "caught", "opts": {"files": 3},
+        "why": "one printer call of the C++ converter turned back into print",
+        "edits": [(A2G, '    printer("\\n*/\\n\\n    // Intro")\n', '    print("\\n*/\\n\\n    // Intro")\n')],
+    },
+    "c19_py_fixedness_inverted": {
+        "prop": "C19", "expect": "caught", "opts": {"files": 4},
+        "why": "fixed and free parameters swapped in the Python make_pars only",
+        "edits": [(GOO, PY_PARS_LOOP, PY_PARS_LOOP.replace("if not par.fix:", "if par.fix:"))],
+    },
+    "c19_py_intro_drops_width_vars": {
+        "prop": "C19", "expect": "caught", "opts": {"files": 3},
+        "why": "the Python intro no longer declares the resonance width variables",
+        "edits": [(GOO, """            header += (
+                "{name:15} = Variable({nameQ:21}, {particle.width:<10.8g})\\n".format(
+                    name=name + "_W", nameQ='"' + name + '_W"', particle=particle
+                )
+            )
+""", "")],
+    },
+    "c19_cli_generators_swapped": {
+        "prop": "C19", "expect": "caught", "opts": {"files": 2},
+        "why": "command line -G goofit runs the Python generator and vice versa",
+        "edits": [(MAIN, """        if self.generator == "goofit":
+            ampgen2goofit(filename)
+        if self.generator == "goofitpy":
+            ampgen2goofitpy(filename)""", """        if self.generator == "goofit":
+            ampgen2goofitpy(filename)
+        if self.generator == "goofitpy":
+            ampgen2goofit(filename)""")],
+    },
+    "c19_py_L_off_by_one_for_gspline": {
+        "prop": "C19", "expect": "caught", "opts": {"files": 6},
+        "why": "orbital momentum of GSpline lineshapes off by one in the Python output only",
+        "edits": [(GOO, """            return f\"\"\"Lineshapes.GSpline("{name}", {par}_M, {par}_W, {L}, {masses}, FF.BL2,""",
+                   """            return f\"\"\"Lineshapes.GSpline("{name}", {par}_M, {par}_W, {L + 1}, {masses}, FF.BL2,""")],
+    },
+    "c19_py_permutations_reversed": {
+        "prop": "C19", "expect": "caught", "opts": {"files": 3},
+        "why": "permutation list reversed in the Python spin factors only",
+        "edits": [(GOO, """        intro = "spin_factor_list.append((\\n"
+        factor = []
+        for structure in self.list_structure(final_states):""", """        intro = "spin_factor_list.append((\\n"
+        factor = []
+        for structure in reversed(self.list_structure(final_states)):""")],
+    },
+    "c19_cpp_arrays_before_variables": {
+        "prop": "C19", "expect": "caught", "opts": {"files": 6},
+        "why": "C++ parameter arrays are emitted before the variables they list",
+        "edits": [(GOO, """            header += "\\n    }};\\n"
+
+        return "\\n".join(headerlist) + "\\n" + header
+
+    def make_lineshape(self, structure, masses):
+        \"\"\"
+        Write out the line shapes. Each kind of line shape is treated separately.
+        \"\"\"
+        name = self.name
+        par = self.particle.programmatic_name
+        a = structure[0] + 1
+        b = structure[1] + 1
+        # order assignment
+        if a > b:
+            a, b = b, a
+        L = self.L
+""", """            header += "\\n    }};\\n"
+
+        return header + "\\n" + "\\n".join(headerlist) + "\\n"
+
+    def make_lineshape(self, structure, masses):
+        \"\"\"
+        Write out the line shapes. Each kind of line shape is treated separately.
+        \"\"\"
+        name = self.name
+        par = self.particle.programmatic_name
+        a = structure[0] + 1
+        b = structure[1] + 1
+        # order assignment
+        if a > b:
+            a, b = b, a
+        L = self.L
+""")],
+    },
+    "c19_stdout_bound_at_import": {
+        "prop": "C19", "expect": "caught", "opts": {"files": 2},
+        "why": "the printing path writes to the stdout object seen at import time, not the one in force at the call",
+        "edits": [(A2G, "import datetime\n", "import datetime\nimport sys\n\n_STDOUT = sys.stdout\n"),
+                  (A2G, """        printer = partial(print, file=output)
+    else:
+        printer = print
+
+    lines, all_states = GooFitChain.read_ampgen(str(filename))""", """        printer = partial(print, file=output)
+    else:
+        printer = partial(print, file=_STDOUT)
+
+    lines, all_states = GooFitChain.read_ampgen(str(filename))""")],
+    },
+    "c19_kmatrix_pole_flag_differs": {
+        "prop": "C19", "expect": "caught", "opts": {"files": 8},
+        "why": "the Python output decides the kMatrix pole flag from a different word than the C++ output",
+        "edits": [(GOO, """            is_pole = "True" if poleprod == "pole" else "False\"""", """            is_pole = "True" if poleprod == "prod" else "False\"""")],
+    },
+    "c19_refactor_clock_import_and_padding": {
+        "prop": "C19", "expect": "pass", "opts": {"files": 4},
+        "why": "behaviour-preserving: `from datetime import datetime` (bypasses the module-attribute clock seam), different column padding, resonance variables declared in sorted order",
+        "edits": [(A2G, "import datetime\n", "from datetime import datetime as _dt\n"),
+                  (A2G, '    printer("Generated on ", datetime.datetime.now())\n\n    printer("\\n")\n    for seen_factor in {p.spindetails() for p in lines}:\n        my_lines = [p for p in lines if p.spindetails() == seen_factor]\n        printer(colors.bold | seen_factor, ":", *my_lines[0].spinfactors)\n        for line in my_lines:\n            printer(" ", colors.blue | str(line))\n\n    printer("\\n")\n    for spintype in SpinType:\n        ps = [\n            format(str(p), "11")\n            for p in sorted(GooFitChain.all_particles)',
+                   '    printer("Generated on ", _dt.now())\n\n    printer("\\n")\n    for seen_factor in {p.spindetails() for p in lines}:\n        my_lines = [p for p in lines if p.spindetails() == seen_factor]\n        printer(colors.bold | seen_factor, ":", *my_lines[0].spinfactors)\n        for line in my_lines:\n            printer(" ", colors.blue | str(line))\n\n    printer("\\n")\n    for spintype in SpinType:\n        ps = [\n            format(str(p), "11")\n            for p in sorted(GooFitChain.all_particles)'),
+                  (A2G, '    printer("Generated on ", datetime.datetime.now())\n', '    printer("Generated on ", _dt.now())\n'),
+                  (GOO, """        for particle in cls.all_particles - final_particles:
+            name = particle.programmatic_name
+            header += "    Variable {name:15} {{ {nameQ:21}, {particle.mass:<10.8g} }};\\n".format(""",
+                   """        for particle in sorted(cls.all_particles - final_particles):
+            name = particle.programmatic_name
+            header += "    Variable {name:22} {{ {nameQ:28}, {particle.mass:<10.8g} }};\\n".format(""")],
+    },
+    # ------------------------------------------------------------------ C20
+    "c20_particles_never_reset": {
+        "prop": "C20", "expect": "caught", "opts": {"histories": 16},
+        "why": "reverts the repair of F8",
+        "edits": [(ACH, """        cls.all_particles = set()
+        cls.final_particles = set()
+""", "")],
+    },
+    "c20_pars_merged_with_previous_read": {
+        "prop": "C20", "expect": "caught", "opts": {"histories": 16},
+        "why": "the parameter table of a read is appended to the one of the previous read of that class",
+        "edits": [(GOO, """        (
+            line_arr,
+            GooFitChain.pars,
+            GooFitChain.consts,
+            all_states,
+        ) = super().read_ampgen(*args, **kargs)
+        return line_arr, all_states""", """        previous = GooFitChain.pars
+        (
+            line_arr,
+            GooFitChain.pars,
+            GooFitChain.consts,
+            all_states,
+        ) = super().read_ampgen(*args, **kargs)
+        if previous is not None:
+            extra = previous[~previous.index.isin(GooFitChain.pars.index)]
+            GooFitChain.pars = pd.concat([GooFitChain.pars, extra])
+        return line_arr, all_states""")],
+    },
+    "c20_cache_by_file_name": {
+        "prop": "C20", "expect": "caught", "opts": {"histories": 24},
+        "why": "option text cached by file name: a file rewritten between two reads is served stale",
+        "edits": [(ACH, """            with open(filename, encoding="utf_8") as f:
+                text = f.read()""", """            if filename not in _TEXT_CACHE:
+                with open(filename, encoding="utf_8") as f:
+                    _TEXT_CACHE[filename] = f.read()
+            text = _TEXT_CACHE[filename]"""), (ACH, "class LS(Enum):", "_TEXT_CACHE: dict = {}\n\n\nclass LS(Enum):")],
+    },
+    "c20_special_table_loaded_on_second_read": {
+        "prop": "C20", "expect": "caught", "opts": {"histories": 16},
+        "why": "the special-particle table is loaded by the second read of a process instead of the first",
+        "edits": [(ACH, """        if 998100 not in getattr(Particle, getall)():""", """        if _READS[0] >= 2 and 998100 not in getattr(Particle, getall)():"""),
+                  (ACH, """        cls.all_particles = set()
+        cls.final_particles = set()
+""", """        cls.all_particles = set()
+        cls.final_particles = set()
+        _READS[0] += 1
+"""), (ACH, "class LS(Enum):", "_READS = [0]\n\n\nclass LS(Enum):")],
+    },
+    "c20_spline_array_in_set_order": {
+        "prop": "C20", "expect": "caught", "opts": {"histories": 10},
+        "why": "spline array elements emitted in the iteration order of a set of names (depends on the hash seed, inside one declaration unit)",
+        "edits": [(GOO, """        def strip_pararray(pars, begin, convert=lambda x: x):
+            mysplines = pars.index[pars.index.str.contains(begin, regex=False)]
+            vals = convert(mysplines.str.slice(len(begin))).astype(int)
+            series = pd.Series(mysplines, vals).sort_index()
+            return ",\\n".join(series.map(lambda x: "        " + programmatic_name(x)))
+
+        if not GooFitChain.consts.empty:""", """        def strip_pararray(pars, begin, convert=lambda x: x):
+            mysplines = pars.index[pars.index.str.contains(begin, regex=False)]
+            return ",\\n".join("        " + programmatic_name(x) for x in set(mysplines))
+
+        if not GooFitChain.consts.empty:""")],
+    },
+    "c20_py_reader_stores_into_cpp_class": {
+        "prop": "C20", "expect": "caught", "opts": {"histories": 24},
+        "why": "copy-paste slip: GooFitPyChain.read_ampgen stores its tables on GooFitChain",
+        "edits": [(GOO, """        (
+            line_arr,
+            GooFitPyChain.pars,
+            GooFitPyChain.consts,
+            all_states,
+        ) = super().read_ampgen(*args, **kargs)""", """        (
+            line_arr,
+            GooFitChain.pars,
+            GooFitChain.consts,
+            all_states,
+        ) = super().read_ampgen(*args, **kargs)
+        if GooFitPyChain.pars is None:
+            GooFitPyChain.pars, GooFitPyChain.consts = GooFitChain.pars, GooFitChain.consts""")],
+    },
+    "c20_refactor_sorted_declarations": {
+        "prop": "C20", "expect": "pass", "opts": {"histories": 12},
+        "why": "behaviour-preserving: independent constexpr/Variable declarations emitted in sorted instead of set order",
+        "edits": [(GOO, """        for particle in final_particles:
+            name = particle.programmatic_name.upper()
+            header += f"    constexpr fptype {name:8} {{ {particle.mass:<14.8g} }};\\n\"""", """        for particle in sorted(final_particles):
+            name = particle.programmatic_name.upper()
+            header += f"    constexpr fptype {name:8} {{ {particle.mass:<14.8g} }};\\n\""""),
+                  (GOO, """        for particle in cls.all_particles - final_particles:
+            name = particle.programmatic_name
+            header += "    Variable {name:15} {{ {nameQ:21}, {particle.mass:<10.8g} }};\\n".format(""",
+                   """        for particle in sorted(cls.all_particles - final_particles, reverse=True):
+            name = particle.programmatic_name
+            header += "    Variable {name:15} {{ {nameQ:21}, {particle.mass:<10.8g} }};\\n".format(""")],
+    },
+})
